@@ -17,7 +17,7 @@ VARIABLE l
 Trace == ndJsonDeserialize("manager_trace.ndjson")
 
 \* the world the harness ran in (ManagerWorld.tla: by default the one of ManagerMC / harness/manager/world_test.go)
-TCaps   == WCaps
+TCaps   == WCaps \cup {91}          \* (91: an unreadable capture file)
 TConns  == WConns
 TPieces == WPieces
 TPort   == WPort
@@ -32,7 +32,7 @@ Opt(r, f, d) == IF f \in DOMAIN r THEN r[f] ELSE d
 
 JobOf(kind, j) ==
     CASE kind = "import" -> [phase |-> j.phase, batch |-> j.batch, idx |-> j.idx, next |-> j.next, file |-> j.file,
-                             upd |-> S(j.upd), res |-> S(j.res), add |-> S(j.add), used |-> j.used]
+                             upd |-> S(j.upd), res |-> S(j.res), add |-> S(j.add), used |-> j.used, n |-> j.n]
       [] kind = "tag"    -> [phase |-> j.phase, tag |-> j.tag, def |-> DefOf(j.def), U0 |-> S(j.U0), M0 |-> S(j.M0),
                              idx |-> j.idx, td |-> [t \in DOMAIN j.td |-> S(j.td[t])], M1 |-> S(j.M1)]
       [] kind = "merge"  -> [phase |-> j.phase, off |-> j.off, idx |-> j.idx, file |-> j.file]
@@ -113,7 +113,7 @@ StepOK(r) ==
     LET ev == r.ev IN
     IF r.res = "skip" THEN UNCHANGED vars
     ELSE CASE ev.a = "ApiImport"     -> ApiImport(ev.k)
-           [] ev.a = "ImportCompute" -> \E f \in DOMAIN files' : ImportCompute(f)
+           [] ev.a = "ImportCompute" -> \E f \in DOMAIN files' \cup {"(no file)"} : ImportCompute(f)
            [] ev.a = "ImportDone"    -> \E p \in Picks : ImportDone(p)
            [] ev.a = "TagCompute"    -> TagCompute
            [] ev.a = "TagDone"       -> \E p \in Picks : TagDone(p)
